@@ -149,8 +149,9 @@ PROPS = {
                  "exchange is not derailed by others' packets (not_derailed), and the sequential handler is a run of the system (handle_is_a_run) — Lean "
                  "theorems; the granularity of atomicity and the per-packet copy are facts extracted from the source on every run "
                  "(Expect.c01_c09_c11_ipdb_lock_discipline, c09_handler_isolation); real-time bursts of overlapping packets into the real Run loop and "
-                 "concurrent calls on the real IPDB checked against all sequential orders.",
-        "props": ["C09"],
+                 "concurrent calls on the real IPDB checked against all sequential orders."
+                 " The receive loop as translated from the source on every run copies every packet out of the receive buffer before decoding it and hands each handler its own decoded message (C10Code.code_run): what a handler gets is a function of its own frame.",
+        "props": ["C09", "C10Code"],
         "streams": [{"test": "TestSrvConc", "names": ["srvconc"], "timeout": 300}, {"test": "TestDbConc", "names": ["dbconc"], "timeout": 300},
                     {"test": "TestCfgOptions", "names": ["cfgopts"], "timeout": 300},
                     {"test": "TestSrvConc", "names": ["srvconc-race"], "timeout": 300, "race": True, "env": {"HX_N": "16", "HX_SUFFIX": "-race"},
@@ -171,8 +172,11 @@ PROPS = {
                  "dropped frame leaves the whole system state untouched (junk_is_noop, unhandled_is_noop) and any interleaving of junk equals the run "
                  "without it (junk_interleaving); the client side is C14's catch_never_panics / ignored_have_no_effect — Lean theorems; junk frames "
                  "through the real Run loop inside server scripts, mutated and random bytes through the real decoders and the real catchReply, with "
-                 "recover() turning a panic into a reported case.",
-        "props": ["C10", "C14", "C13Code", "C12Code", "C14Code"],
+                 "recover() turning a panic into a reported case."
+                 " On the regenerated code: the server's receive loop (*server).Run, translated from the source on every run, never panics for any frame list, "
+                 "starts a handler for exactly the frames rxChain accepts (with the decoded addresses and message, each packet copied out of the receive buffer) "
+                 "and drops everything else without effect (C10Code); the client's catchReply returns exactly the model's catchReply over any frame list (C14CodeCatch).",
+        "props": ["C10", "C14", "C13Code", "C12Code", "C14Code", "C10Code", "C14CodeCatch"],
         "streams": [{"test": "TestSrvSeq", "names": ["srvseq"], "timeout": 300}, {"test": "TestWire", "names": ["wire"], "timeout": 300}, {"test": "TestDhcp", "names": ["dhcp"], "timeout": 300},
                     {"test": "TestCliCatch", "names": ["clicatch"], "timeout": 300}, {"test": "TestCliAuto", "names": ["cliauto"], "timeout": 300}],
         "rule": "structure-aware mutations of valid frames (length fields, IHL incl. short packets with large IHL, truncation anywhere, option bytes, hlen "
@@ -207,8 +211,9 @@ PROPS = {
                  "exactly when every conjunct of the property holds; every other packet is ignored without effect; the receive path never indexes out "
                  "of range — Lean theorems over all byte strings / decoded messages. Tied to the code by running the real catchReply + verifiers on the "
                  "virtual segment over every combination of violated conjuncts x 4 waiting states, plus mutated frames."
-                 " The six predicates of lib/client/verify as translated from the source on every run equal the model's (C14Code).",
-        "props": ["C14", "C14Code"],
+                 " The six predicates of lib/client/verify as translated from the source on every run equal the model's (C14Code)."
+                 " catchReply itself (the loop over received frames: IPv4, protocol 17, port 68, hardware address, verifier, NAK) as translated from the source on every run equals the model's catchReply (C14CodeCatch).",
+        "props": ["C14", "C14Code", "C14CodeCatch"],
         "streams": [{"test": "TestCliCatch", "names": ["clicatch"], "timeout": 600}],
         "rule": "all 2^11 combinations of violated conjuncts (quick: all singles and pairs + 1/8 of the rest; thorough: all) x {offer, selecting, renewing, "
                 "rebinding}, each violation drawn from its variants (absent / zero / broadcast / wrong length / wrong value), lease boundaries 59/60/61 s, "
